@@ -75,6 +75,15 @@ Write(h, s, t, r, c, v) ==
        ELSE /\ SetG(h, s, t, Put(Grow(G(h, s, t), r, c), r, c, v)) /\ UNCHANGED disk
             /\ Ev([op |-> "write", h |-> h, s |-> s, t |-> t, r |-> r, c |-> c, v |-> v, out |-> "ok"])
 
+\* set_cell_style / set_cell_formatting / set_cell_border: position-taking calls that do not change a value;
+\* like write they grow the table to exactly the required size, or are refused
+Touch(h, s, t, r, c, kind) ==
+  /\ Addr(h, s, t)
+  /\ IF r < 1 \/ c < 1 \/ r > LimR \/ c > LimC
+       THEN Refuse /\ Ev([op |-> "touch", h |-> h, s |-> s, t |-> t, r |-> r, c |-> c, kind |-> kind, out |-> "IndexError"])
+       ELSE /\ SetG(h, s, t, Grow(G(h, s, t), r, c)) /\ UNCHANGED disk
+            /\ Ev([op |-> "touch", h |-> h, s |-> s, t |-> t, r |-> r, c |-> c, kind |-> kind, out |-> "ok"])
+
 AddRow(h, s, t, n, at, d) ==
   /\ Addr(h, s, t)
   /\ LET g == G(h, s, t) IN
@@ -147,11 +156,11 @@ NewDoc(h, nr, nc) == /\ docs' = [docs EXCEPT ![h] = NewDocState(nr, nc)] /\ UNCH
 Resolve(b, dflt) == IF b = NoneV THEN dflt ELSE b       \* None means the extreme, 0-based bounds
 IterRows(g, minr, maxr, minc, maxc) ==   \* 0-based inclusive bounds; "IndexError" or the rectangle, row-major
   LET r0 == Resolve(minr, 0) r1 == Resolve(maxr, NR(g) - 1) c0 == Resolve(minc, 0) c1 == Resolve(maxc, NC(g) - 1) IN
-  IF r0 < 0 \/ c0 < 0 \/ r1 > NR(g) - 1 \/ c1 > NC(g) - 1 THEN <<"IndexError">>
+  IF r0 < 0 \/ c0 < 0 \/ r1 < 0 \/ c1 < 0 \/ r1 > NR(g) - 1 \/ c1 > NC(g) - 1 THEN <<<<"IndexError">>>>
   ELSE [i \in 1..(r1 - r0 + 1) |-> [j \in 1..(c1 - c0 + 1) |-> g[r0 + i][c0 + j]]]
 IterCols(g, minc, maxc, minr, maxr) ==   \* column-major
   LET r0 == Resolve(minr, 0) r1 == Resolve(maxr, NR(g) - 1) c0 == Resolve(minc, 0) c1 == Resolve(maxc, NC(g) - 1) IN
-  IF r0 < 0 \/ c0 < 0 \/ r1 > NR(g) - 1 \/ c1 > NC(g) - 1 THEN <<"IndexError">>
+  IF r0 < 0 \/ c0 < 0 \/ r1 < 0 \/ c1 < 0 \/ r1 > NR(g) - 1 \/ c1 > NC(g) - 1 THEN <<<<"IndexError">>>>
   ELSE [j \in 1..(c1 - c0 + 1) |-> [i \in 1..(r1 - r0 + 1) |-> g[r0 + i][c0 + j]]]
 CellAt(g, r, c) == IF r < 1 \/ c < 1 \/ r > NR(g) \/ c > NC(g) THEN "IndexError" ELSE g[r][c]   \* 1-based
 ByIndex(seq, i) ==  \* python index i (0-based, negative from the end) -> name or "IndexError"
@@ -164,6 +173,10 @@ HS == {h \in Handles : IsOpen(h)}
 Next ==
   \/ "write" \in OpsOn /\ \E h \in HS : \E s \in 1..NS(h) : \E t \in 1..NT(h, s) : \E r \in RowArgs, c \in ColArgs, v \in Vals :
         ((r <= MaxR /\ c <= MaxC) \/ r > LimR \/ c > LimC) /\ Write(h, s, t, r, c, v)
+  \/ "touch" \in OpsOn /\ \E h \in HS : \E s \in 1..NS(h) : \E t \in 1..NT(h, s) : \E r \in RowArgs, c \in ColArgs, k \in {"style", "border", "format"} :
+        /\ ((r <= MaxR /\ c <= MaxC) \/ r > LimR \/ c > LimC)
+        /\ (k = "format" => r >= 1 /\ c >= 1 /\ r <= NR(G(h, s, t)) /\ c <= NC(G(h, s, t)) /\ G(h, s, t)[r][c] # E)
+        /\ Touch(h, s, t, r, c, k)
   \/ "addrow" \in OpsOn /\ \E h \in HS : \E s \in 1..NS(h) : \E t \in 1..NT(h, s) : \E n \in Counts, at \in 0..(MaxR + 1), d \in Defaults :
         at <= NR(G(h, s, t)) + 1 /\ NR(G(h, s, t)) + n <= MaxR /\ AddRow(h, s, t, n, at, d)
   \/ "addcol" \in OpsOn /\ \E h \in HS : \E s \in 1..NS(h) : \E t \in 1..NT(h, s) : \E n \in Counts, at \in 0..(MaxC + 1), d \in Defaults :
@@ -201,13 +214,13 @@ SaveIsStutter == [][(disk' # disk => docs' = docs) /\ (LastEv.op # "save" => dis
 \* an action addressed to one document never changes another one
 Frame == [][\A h \in Handles : (LastEv.h # h) => docs'[h] = docs[h]]_vars
 \* an action addressed to one table leaves every other table of every document as it was
-TableFrame == [][LastEv.op \in {"write", "addrow", "addcol", "delrow", "delcol"} =>
+TableFrame == [][LastEv.op \in {"write", "touch", "addrow", "addcol", "delrow", "delcol"} =>
                   \A h \in Handles : IsOpen(h) => \A s \in 1..NS(h) : \A t \in 1..NT(h, s) :
                      <<h, s, t>> # <<LastEv.h, LastEv.s, LastEv.t>> => docs'[h][s].tables[t] = docs[h][s].tables[t]]_vars
 ReopenEqualsSaved == [][LastEv.op = "open" => docs'[LastEv.h] = disk[LastEv.f]]_vars
 RefusedChangesNothing == [][LastEv.out # "ok" => UNCHANGED <<docs, disk>>]_vars
 \* growth is exactly to the required size (C01/C11)
-ExactGrowth == [][LastEv.op = "write" /\ LastEv.out = "ok" =>
+ExactGrowth == [][LastEv.op \in {"write", "touch"} /\ LastEv.out = "ok" =>
                     LET g == docs[LastEv.h][LastEv.s].tables[LastEv.t].g
                         g2 == docs'[LastEv.h][LastEv.s].tables[LastEv.t].g IN
                     NR(g2) = Max(NR(g), LastEv.r) /\ NC(g2) = Max(NC(g), LastEv.c)]_vars
